@@ -37,7 +37,7 @@ func runC15(e *Engine, r *Report, tier string) {
 	sub18 := NewReport("C18", "other")
 	runC18(e, sub18, tier)
 	for _, o := range sub18.Obls {
-		if strings.HasPrefix(o.Construct, "x/gov.") && strings.HasPrefix(o.Rule, "R1") {
+		if strings.HasPrefix(o.Construct, "x/gov.") && (strings.HasPrefix(o.Rule, "R1") || o.Rule == "R7") {
 			r.add("R6", o.Rule+" "+o.Construct, o.Status, o.Pos, o.Detail)
 		}
 	}
